@@ -62,25 +62,25 @@ PROPS = {
             R("h23", "c12", "TestC12_Crypto", (20000, 4), (1000000, 16, 3000)),
             E("h23", "c12", "TestC12_CryptoExhaustive", (4,), (16, 3000)),
             R("h23", "c12", "TestC12_Keys", (10000, 2), (300000, 8, 3000)),
-            R("h23", "c12", "TestC12_Index", (2000, 4), (60000, 16, 3000)),
+            R("h23", "c12", "TestC12_Index", (4000, 8), (60000, 16, 3000)),
         ],
     },
     "C17": {
         "level": "exploration",
         "units": [
-            R("h23", "c17", "TestC17_Expand", (30000, 4), (2000000, 16, 3000)),
+            R("h23", "c17", "TestC17_Expand", (100000, 8), (2000000, 16, 3000)),
         ],
     },
     "C18": {
         "level": "exploration",
         "units": [
-            R("h23", "c18", "TestC18_Requests", (8000, 8), (300000, 16, 3000)),
+            R("h23", "c18", "TestC18_Requests", (20000, 8), (300000, 16, 3000)),
         ],
     },
     "C05": {
         "level": "exploration",
         "units": [
-            R("h23", "c05", "TestC05_SignVerify", (6000, 8), (150000, 16, 3000)),
+            R("h23", "c05", "TestC05_SignVerify", (16000, 8), (150000, 16, 3000)),
         ],
     },
     "C13": {
@@ -103,8 +103,8 @@ PROPS = {
     "C19": {
         "level": "exploration",
         "units": [
-            R("h23", "c19", "TestC19_FindRoundTrip", (4000, 8), (200000, 16, 3000)),
-            R("h23", "c19", "TestC19_Negotiation", (4000, 4), (200000, 16, 3000)),
+            R("h23", "c19", "TestC19_FindRoundTrip", (8000, 8), (200000, 16, 3000)),
+            R("h23", "c19", "TestC19_Negotiation", (10000, 4), (200000, 16, 3000)),
             R("h23", "c19", "TestC19_APIError", (20000, 2), (1000000, 8, 3000)),
         ],
     },
@@ -113,7 +113,7 @@ PROPS = {
         "units": [
             R("h23", "c03", "TestC03_Head", (20000, 8), (500000, 16, 3000)),
             R("h23", "c03", "TestC03_PublisherHead", (3000, 2), (100000, 8, 3000)),
-            R("h26", "c03w", "TestC03_Subscriber", (1500, 8, 1500), (30000, 16, 6000)),
+            R("h26", "c03w", "TestC03_Subscriber", (4000, 8, 1500), (30000, 16, 6000)),
         ],
         "fuzz": [{"mod": "h23", "pkg": "c03", "target": "FuzzC03_Head", "secs": 300}],
     },
@@ -134,27 +134,27 @@ PROPS = {
     "C04": {
         "level": "fault_enumeration",
         "units": [
-            R("h26", "c04", "TestC04_Random", (1500, 8, 1500), (30000, 16, 6000)),
+            R("h26", "c04", "TestC04_Random", (4000, 8, 1500), (30000, 16, 6000)),
             E("h26", "c04", "TestC04_Exhaustive", (8, 1500), (16, 10000)),
         ],
     },
     "C06": {
         "level": "exploration",
         "units": [
-            R("h26", "c06", "TestC06_Model", (4000, 8, 1500), (300000, 16, 8000)),
+            R("h26", "c06", "TestC06_Model", (16000, 8, 1500), (300000, 16, 8000)),
         ],
     },
     "C07": {
         "level": "exploration",
         "units": [
-            R("h26", "c07", "TestC07_Bubble", (1500, 8, 1500), (100000, 16, 8000)),
+            R("h26", "c07", "TestC07_Bubble", (4000, 8, 1500), (100000, 16, 8000)),
             R("h26", "c07", "TestC07_Race", (300, 6, 1500), (6000, 8, 8000), race=True),
         ],
     },
     "C09": {
         "level": "exploration",
         "units": [
-            R("h26", "c09", "TestC09_Direct", (1500, 8, 1500), (100000, 16, 8000)),
+            R("h26", "c09", "TestC09_Direct", (3000, 8, 1500), (100000, 16, 8000)),
             E("h26", "c09", "TestC09_LRUExhaustive", (8, 1500), (16, 8000)),
             R("h23", "c09p", "TestC09_Pubsub", (40, 1, 600), (1500, 4, 3000)),
         ],
@@ -169,20 +169,20 @@ PROPS = {
     "C08": {
         "level": "exploration",
         "units": [
-            R("h26", "c08", "TestC08_Scripts", (2000, 8, 300), (150000, 16, 8000)),
+            R("h26", "c08", "TestC08_Scripts", (4000, 8, 400), (150000, 16, 8000)),
         ],
     },
     "C14": {
         "level": "exploration",
         "units": [
-            R("h26", "c14", "TestC14_Scripts", (1500, 8, 300), (100000, 16, 8000)),
+            R("h26", "c14", "TestC14_Scripts", (3000, 8, 400), (100000, 16, 8000)),
             R("h26", "c14", "TestC14_RegisterCancelStress", (400, 8, 300), (20000, 16, 8000)),
         ],
     },
     "C15": {
         "level": "exploration",
         "units": [
-            R("h26", "c15", "TestC15_Scripts", (1500, 8, 300), (100000, 16, 8000)),
+            R("h26", "c15", "TestC15_Scripts", (3000, 8, 400), (100000, 16, 8000)),
         ],
     },
 }
